@@ -55,7 +55,10 @@ theorem stageP_all (dest : Str) (o : Opts) (e : Entry) (st : LState) (n : Str) :
     split
     · apply All_bind_any; intro out
       split
-      · rename_i hne; apply All_pure; simpa using hne
+      · rename_i hne
+        split
+        · apply All_bind_any; intro _; apply All_pure; simpa using hne
+        · apply All_pure; simpa using hne
       · apply All_pure; rfl
     · apply All_pure; simp
   · apply All_pure; rfl
